@@ -11,7 +11,7 @@ from pyvc import smt
 from pyvc.smt import V, kind, sval, dlen, dkey, dval, dhas, dget, llen, lget
 from pyvc.smt import K_STR, K_DICT, K_LIST, K_BOOL, K_NONE
 from pyvc.values import *       # noqa
-from pyvc.interp import Raised, State, Ctx, Interp, lift, to_sv, branch, truth
+from pyvc.interp import Raised, State, Ctx, Interp, lift, to_sv, branch, truth, add_lemma, add_def
 from pyvc import prims
 from spec import drafts
 from spec.ops import Z3Ops, lift_json
@@ -36,6 +36,30 @@ def meta_eval(repo, d, s_sv):
     return drafts.V_concrete_schema(o, repo.schemas[d], s_sv)
 
 
+_wf_registered = {}
+
+
+def register_wf_axioms(repo):
+    """wf_d(v) => v satisfies the metaschema root's `type` (a schema is an object, or a boolean from
+    draft 6 on): a consequence of the definition wf_d(v) <=> V(META_d, v), read from the bundled file."""
+    key = repo.tree_hash()
+    if key in _wf_registered:
+        return
+    axs = []
+    v = z3.Const("v", V)
+    for d in drafts.DRAFTS:
+        o = Z3Ops(d, Vp=None, meta_root=repo.schemas[d], wf_pred=WF[d], scope=None)
+        root = repo.schemas[d]
+        if "type" in root:
+            kt = drafts.K_type(o, d, o.const(root["type"]), SV(v), o.const(root))
+            axs.append((WF[d].name(), z3.ForAll([v], z3.Implies(WF[d](v), kt), patterns=[WF[d](v)])))
+    _wf_registered[key] = axs
+
+    @smt.register_axioms
+    def _wf_axioms(names):
+        return [a for n, a in axs if n in names]
+
+
 class Obligation:
     def __init__(self, name, kind_, pc, goal, note="", inputs=None):
         self.name, self.kind, self.pc, self.goal, self.note = name, kind_, list(pc), goal, note
@@ -47,6 +71,13 @@ class Obligation:
         self.reason = ""
 
     def check(self, timeout_ms=10000, seed=0):
+        # equivalences between bounded universal quantifications: try the pointwise strengthening first
+        alt = getattr(self, "alt_goal", None)
+        if alt is not None:
+            res = smt.check_sat(self.pc + [z3.Not(alt)], timeout_ms=timeout_ms, seed=seed, use_cvc5=False)
+            if res.status == "unsat":
+                self.solver, self.time_s, self.status = res.solver + "(pointwise)", res.time_s, "discharged"
+                return self.status
         if self.goal is False:
             # reachability of a forbidden exit: pc must be unsatisfiable
             res = smt.check_sat(self.pc, timeout_ms=timeout_ms, seed=seed)
@@ -120,22 +151,26 @@ def materialise(I, st, v):
     if isinstance(v, (SB, SInt, SStr)):
         return to_sv(v), []
     if isinstance(v, PyDict):
-        t = smt.fresh("mkdict", V)
-        facts = [kind(t) == K_DICT, dlen(t) == len(v.d)]
+        t = smt.fresh_fn("mkdict", st.loopvars, V)
+        facts = [smt.kd(t, K_DICT), dlen(t) == len(v.d)]
+        shape = {}
         for i, (k, e) in enumerate(v.d.items()):
             ev, f2 = materialise(I, st, e)
             facts += f2 + [dkey(t, i) == z3.StringVal(k), dval(t, i) == ev.t]
-        return SV(t), facts
+            shape[k] = ev
+        return SV(t, shape=shape), facts
     if isinstance(v, ListObj):
         items = st.heap[v.oid].get("items")
         if items is None:
             raise OutOfSubset("materialise a symbolic list")
-        t = smt.fresh("mklist", V)
-        facts = [kind(t) == K_LIST, llen(t) == len(items)]
+        t = smt.fresh_fn("mklist", st.loopvars, V)
+        facts = [smt.kd(t, K_LIST), llen(t) == len(items)]
+        shape = []
         for i, e in enumerate(items):
             ev, f2 = materialise(I, st, e)
             facts += f2 + [lget(t, i) == ev.t]
-        return SV(t), facts
+            shape.append(ev)
+        return SV(t, shape=shape), facts
     raise OutOfSubset("materialise %r" % (v,))
 
 
@@ -168,7 +203,7 @@ def require(I, st, name, goal, note=""):
     ob = Obligation("%s/P/%s" % (st.unit.key if st.unit else "?", I.ctx.anchor(name)), "P", st.pc, goal, note)
     I.ctx.obligations.append(ob)
     s = st.fork()
-    s.pc.append(goal)
+    add_lemma(s, goal)
     return s
 
 
@@ -212,12 +247,13 @@ class SubValidation(Contract):
         inst, f1 = materialise(I, st, b["instance"])
         sch, f2 = materialise(I, st, sch)
         s = st.fork()
-        s.pc.extend(f1 + f2)
+        for f in f1 + f2:
+            add_def(s, f)
         scope = s.ghost["scope"]
         if f2:
             # a schema built by the function itself: V is *defined* by the keyword semantics
             o = ops_for(d, scope)
-            s.pc.append(Vp(scope, sch.t, inst.t) == V_def(o, d, sch, inst))
+            add_def(s, Vp(scope, sch.t, inst.t) == (o.V(sch, inst) if sch.shape is not None else V_def(o, d, sch, inst)))
         s = require(I, s, "%s.wf" % self.which, subschema_wf(I, s, d, sch, []), "sub-schema is accepted by the draft")
         s = require(I, s, "%s.json" % self.which, smt.isjson(inst.t), "instance is a JSON value")
         v = Vp(scope, sch.t, inst.t)
@@ -228,6 +264,10 @@ class SubValidation(Contract):
             meta = {"which": self.which, "path": b.get("path"), "schema_path": b.get("schema_path"),
                     "instance": inst, "schema": sch, "scope": scope}
             normal = Gen(self.which, (scope, sch.t, inst.t, _desc(b.get("path")), _desc(b.get("schema_path"))), v, meta)
+        if ctx.config.get("no_callee_exc"):
+            # analysis of the no-exception behaviour: sub-validations that raise end the function
+            # (no keyword function has a handler that could catch them: checked by the task)
+            return [(s, normal)]
         cases = [(z3.Not(x), normal), (x, Raised(ExcVal("CalleeExc", {}, origin=self.which)))]
         return branch(ctx, s, cases)
 
@@ -255,7 +295,7 @@ def V_def(o, d, s, x):
     ref_case = Vref(o.scope, dget(st, z3.StringVal("$ref")), x.t)
     body = z3.If(has_ref, ref_case, obj_case)
     if d >= 6:
-        return z3.If(kind(st) == K_BOOL, smt.bval(st), body)
+        return z3.If(smt.kd(st, K_BOOL), smt.bval(st), body)
     return body
 
 
@@ -278,14 +318,15 @@ class IsType(Contract):
         inst, f1 = materialise(I, st, b["instance"])
         tn = b["type"]
         s = st.fork()
-        s.pc.extend(f1)
+        for f in f1:
+            add_def(s, f)
         o = ops_for(d, s.ghost.get("scope"))
         if isinstance(tn, SV) and tn.known and isinstance(tn.conc, str):
             if tn.conc in drafts.TYPE_NAMES[d]:
                 return [(s, SB(drafts.T(o, d, tn.conc, inst)))]
             return [(s, Raised(ExcVal("UnknownType", {}, origin="is_type")))]
         tn = to_sv(tn)
-        s = require(I, s, "is_type.name", kind(tn.t) == K_STR, "type name is a string")
+        s = require(I, s, "is_type.name", smt.kd(tn.t, K_STR), "type name is a string")
         known = drafts.known_type_name(o, d, sval(tn.t))
         cases = [(known, SB(drafts.T_sym(o, d, sval(tn.t), inst))),
                  (z3.Not(known), Raised(ExcVal("UnknownType", {}, origin="is_type")))]
